@@ -95,6 +95,9 @@ struct GenOpts {
 };
 JVal gen_value(sim::Rng& r, const GenOpts& o, int depth = 0);
 std::string gen_key(sim::Rng& r, const GenOpts& o);
+// object with 8..16 distinct keys that mix scripts, lengths and shared prefixes (what a lookup map has to order): long UTF-8,
+// long ASCII, short, keys equal up to an embedded NUL, prefixes of one long key, keys one byte (high bit / low bit) apart
+JVal gen_mixed_key_object(sim::Rng& r, const GenOpts& o);
 std::string gen_string(sim::Rng& r, const GenOpts& o);
 JVal gen_scalar(sim::Rng& r, const GenOpts& o);
 uint64_t gen_double_bits(sim::Rng& r, bool allow_nonfinite);
